@@ -19,9 +19,9 @@ EXPLANATION = (
     "_sendfile, which record status, offset, count and headers. Per path z3 decides agreement with RFC 9110 14.1.2 / "
     "15.3.7 / 15.5.17: 206 implies 0 <= offset, count >= 1, offset+count <= size, Content-Range = "
     "offset-(offset+count-1)/size and Content-Length = count; unsatisfiable ranges give 416 with Content-Range */size. "
-    "The If-Match / If-None-Match / If-(Un)Modified-Since decision table of _make_response is run with symbolic mtimes.")
+    "The whole FileResponse.prepare decision table (If-Match, If-Unmodified-Since, If-None-Match, If-Modified-Since, Range + If-Range with dates and entity-tags, GET and HEAD) is enumerated by the solver over a file with fixed mtime/size/ETag and compared with RFC 9110 13.2.2 precedence and 13.1.5.")
 ASSUMPTIONS = [
-    "os.stat result is a stub object with symbolic st_size (and symbolic st_mtime for the conditional table); the file object is never read (body bytes are written by sendfile / the kernel: FFI)",
+    "os.stat result is a stub object with symbolic st_size (fixed size and mtime for the conditional table, dates placed before / at / after the mtime); the file object is never read (body bytes are written by sendfile / the kernel: FFI)",
     "StreamResponse.prepare and FileResponse._sendfile are recording stubs",
     "a syntactically invalid or malformed Range header may be answered 416 or ignored (200, whole file): RFC 9110 14.2 allows both",
     "not claimed: path confinement, symlink policy, directory listing (os.path/pathlib/kernel behind FFI)",
@@ -381,4 +381,4 @@ REQUIRED_OUTCOMES = ("sat:206", "unsat:416", "invalid:416", "plain")
 def bounds(tier):
     return {"file_size": "one symbolic integer in 0..150 (quick) / 0..1500 with the digit strings; 0..10^6 without Range",
             "range_header": "'bytes=A-B', A and B symbolic digit strings of 0..2 (quick) / 0..3 digits; malformed tails of 1..3 (4) symbolic characters over digits and '- ,=+.a'",
-            "conditional_headers": "not in this tier"}
+            "conditional_headers": "If-Match / If-None-Match in {absent, *, matching, weak matching, other, list containing the match} x If-Unmodified-Since / If-Modified-Since in {absent, earlier, equal, later, unparsable} x Range {absent, bytes=2-5} x If-Range {absent, earlier, equal, later, unparsable, matching entity-tag, other entity-tag} x GET/HEAD on a file of 10 bytes (complete table through the real FileResponse.prepare)"}
